@@ -1,3 +1,3 @@
 SPECIFICATION Spec
-INVARIANTS SameIds RoundTrip Distinct FormatCollision
+INVARIANTS SameIds RoundTrip Distinct FormatCollision ExtractKeepsBlinding
 CHECK_DEADLOCK FALSE
